@@ -240,7 +240,8 @@ func record(args []string) error {
 	}
 	rng := vh.Rand(31)
 	dd := vh.NewDedup()
-	skipped, failed, accepted, nonASCII := 0, 0, 0, 0
+	skipped, failed, accepted, nonASCII, hcalls := 0, 0, 0, 0, 0
+	var hist []Entry
 	for i := 0; i < n; i++ {
 		s := Generate(rng)
 		if !dd.Add([]byte(s)) {
@@ -266,6 +267,9 @@ func record(args []string) error {
 			res.Sample(map[string]any{"input": s, "input_go": strconv.Quote(s), "toASCII": t, "toASCIIFailed": e, "abstract": EncodeRuns(Abstract(t)),
 				"observed_nil": []bool{obs[0].Nil, obs[1].Nil, obs[2].Nil}})
 		}
+		if len(hist) < HistoryCap()/4 {
+			hist = append(hist, Entry{S: s, Want: want})
+		}
 		if obs[0].Panic != "" || obs[1].Panic != "" || obs[2].Panic != "" {
 			continue // already a mismatch; a panic has no line in the grammar
 		}
@@ -283,6 +287,9 @@ func record(args []string) error {
 	if err := tr.Close(); err != nil {
 		return err
 	}
-	return res.Close(map[string]any{"events": tr.N, "inputs": dd.N(), "evaluations": dd.N() * 3, "inexpressible_skipped": skipped,
+	hcalls = History(hist, vh.Rand(32), func(fn, key, what string, detail any) {
+		res.Mismatch(fmt.Sprintf("%s(%s)", fn, shortQ(key)), what+" [T history]", detail)
+	})
+	return res.Close(map[string]any{"events": tr.N, "inputs": dd.N(), "evaluations": dd.N()*6 + hcalls, "history_calls": hcalls, "inexpressible_skipped": skipped,
 		"toascii_failed": failed, "accepted_by_grammar": accepted, "non_ascii_inputs": nonASCII})
 }
